@@ -50,6 +50,17 @@ def inputs(seed, quick):
     n = len(cap.pkts)
     for name, idx in (("spb tail", {n - 1, n - 2}), ("spb mid", {n // 2}), ("spb all data", set(range(4, n)))):
         out.append((f"tls13 with Simple Packet Blocks: {name}", pcapng_bytes(cap.pkts, spb=idx), "\n".join(keylog) + "\n"))
+    # key logs with CONFLICTING lines for one client random (a stale / merged log): which line wins is the tool's business, but it must be
+    # the same line in every run (hash seed, environment); and secrets that travel only inside the capture (no -s at all)
+    for ver, suite in [(R.TLS12, 0xC02F), (R.TLS13, 0x1302), (R.TLS10, 0x002F)]:
+        cap, keylog, conns, flows = build_tls_capture(dict(conns=[dict(ver=ver, suite=suite, seed=seed + 21, shape={}, app=[["c", 40], ["s", 300]])]))
+        wrong = [" ".join(l.split()[:2] + [l.split()[2][::-1]]) for l in keylog]
+        for nm, lines in (("wrong first", wrong + keylog), ("wrong last", keylog + wrong), ("wrong interleaved", [x for pr in zip(keylog, wrong) for x in pr] + ["# end"] * 3)):
+            out.append((f"conflicting key log lines {R.VNAME[ver]} {nm}", pcapng_bytes(cap.pkts), "\n".join(lines) + "\n"))
+        out.append((f"secrets only in the capture {R.VNAME[ver]}", pcapng_bytes(cap.pkts, dsbs=[(0, ("\n".join(keylog) + "\n").encode())]), None))
+        out.append((f"same capture, no key source at all {R.VNAME[ver]}", pcapng_bytes(cap.pkts), None))      # (in-process it FOLLOWS runs that had the secrets)
+        out.append((f"same capture, secrets block of another connection only {R.VNAME[ver]}",
+                    pcapng_bytes(cap.pkts, dsbs=[(0, ("CLIENT_RANDOM " + "12" * 32 + " " + "34" * 48 + "\n").encode())]), None))
     from harness.quicrun import build_conn as qbuild
     from wire.capture import Capture, udp_capture
     from wire.l2l4 import mk_flow
@@ -73,7 +84,12 @@ def inputs(seed, quick):
 def _sub(job):
     name, data, kl, hashseed, noisy, opts = job
     d = tempfile.mkdtemp(prefix="cwd_", dir=runner.scratch())
-    env = {"LANG": "de_DE.UTF-8", "TZ": "Pacific/Kiritimati", "COLUMNS": "17", "PYTHONOPTIMIZE": "", "HOME": d, "FOO": "bar" * 50} if noisy else {}
+    env = {"LANG": "de_DE.UTF-8", "TZ": "Pacific/Kiritimati", "COLUMNS": "17", "PYTHONOPTIMIZE": "", "HOME": d, "FOO": "bar" * 50,
+           "SSLKEYLOGFILE": os.path.join(d, "no_such_keylog.log") if hashseed % 4 == 1 else os.path.join(d, "other.log"), "TLEXPORT_KEYLOG": "x",
+           "PYTHONIOENCODING": "latin-1", "LC_ALL": "C"} if noisy else {}
+    if noisy:
+        with open(os.path.join(d, "other.log"), "w") as f:       # a key log lying around in the working directory / named by the environment
+            f.write("CLIENT_RANDOM " + "ab" * 32 + " " + "cd" * 48 + "\n")
     res = runner.run_subprocess(data, kl, opts=opts, cwd=d, env_extra=env, hashseed=hashseed)
     if res.out is None:
         return dict(name=name, hashseed=hashseed, noisy=noisy, sha=None, err=(res.exc or res.stdout or "no output")[-300:])
@@ -95,6 +111,8 @@ def _mixed(job):
     seq = job
     shas = []
     for i, (name, data, kl) in enumerate(seq):
+        if i % 3 == 2:          # a run that ABORTS (capture truncated in the middle of a block) sits between the others: whatever it read
+            runner.run_inproc(seq[i - 1][1][: len(seq[i - 1][1]) * 2 // 3 + 1], seq[i - 1][2], reset=False)     # must not reach the next run
         res = runner.run_inproc(data, kl, reset=(i == 0))
         shas.append((name, hashlib.sha256(res.out).hexdigest() if res.out is not None else "crash:" + (res.exc or "")[-120:]))
     return shas
